@@ -363,6 +363,67 @@ fn finish<L: HLang>(kind: &str, text: &str, mut tags: Vec<String>, nt: bool, str
     }
 }
 
+/// two parses in ONE thread: whatever the first one did (failed half-way through, interned names, moved the fresh counter),
+/// the second must answer as if it were alone.  The model is asked about the second text only.
+fn finish2<L: HLang>(kind1: &str, text1: &str, kind2: &str, text2: &str, mut tags: Vec<String>, stream: &str) -> Case {
+    let line = format!("parse2 {};{};{};{};{}", enc_sig(&L::sig()), kind1, enc_cps(text1), kind2, enc_cps(text2));
+    let (k1, t1, k2, t2) = (kind1.to_string(), text1.to_string(), kind2.to_string(), text2.to_string());
+    let r = in_fresh_thread(move || {
+        let first = run_text::<L>(&k1, &t1);
+        let second = run_text::<L>(&k2, &t2);
+        (first.0, second)
+    });
+    tags.push(stream.to_string());
+    match r {
+        Ok((first, (out, t))) => {
+            tags.extend(t);
+            let kt = |o: &str| o.split(':').next().unwrap_or("").to_string();
+            tags.push(format!("first:{}", if kt(&first) == "err" { first.clone() } else { kt(&first) }));
+            tags.push(format!("r:{}", if kt(&out) == "err" { out.clone() } else { kt(&out) }));
+            Case { line, impl_out: out, nontrivial: true, tags }
+        }
+        Err(e) => Case { line, impl_out: format!("PANIC {e}"), nontrivial: true, tags: vec!["viol:parse-panics".into()] },
+    }
+}
+
+fn pair_case<L: HLang>(rng: &mut Rng) -> Case {
+    let mut r = rng.fork();
+    let (k1, t1, k2, t2) = in_fresh_thread(move || {
+        let mut gen = |r: &mut Rng, broken: bool| -> (String, String) {
+            let kind = ["pat", "pat", "re", "mp"][r.below(4)];
+            let base = match kind {
+                "mp" => {
+                    let Pattern::ENode(node, cs) = gen_pat::<L>(r, 1, false, false, false) else { unreachable!() };
+                    let cs: Vec<Pattern<L>> = cs.iter().map(|_| Pattern::PVar("b".to_string())).collect();
+                    format!("?a == {}, ?b == {}", Pattern::ENode(node.clone(), cs.clone()), Pattern::ENode(node, cs))
+                }
+                "re" => gen_pat::<L>(r, 3, false, false, false).to_string(),
+                _ => gen_pat::<L>(r, 3, true, true, false).to_string(),
+            };
+            let t = if broken {
+                match r.below(4) {
+                    // a dangling sigil somewhere after the first token: tokenization itself fails half-way through
+                    0 => {
+                        let cut = base.char_indices().map(|(i, _)| i).filter(|i| *i > 0).nth(r.below(base.chars().count().max(2) - 1)).unwrap_or(base.len());
+                        format!("{}{}", &base[..cut], if r.chance(1, 2) { " $" } else { " ?" })
+                    }
+                    1 => format!("{base} $ {base}"),
+                    _ => mutate(&base, r),
+                }
+            } else {
+                base
+            };
+            (kind.to_string(), t)
+        };
+        let (k1, t1) = gen(&mut r, true);
+        let second_broken = r.chance(1, 3);
+        let (k2, t2) = gen(&mut r, second_broken);
+        (k1, t1, k2, t2)
+    })
+    .unwrap();
+    finish2::<L>(&k1, &t1, &k2, &t2, vec![], "pair")
+}
+
 fn fuzz_case<L: HLang>(rng: &mut Rng) -> Case {
     let mut r = rng.fork();
     let (kind, text) = in_fresh_thread(move || {
@@ -392,6 +453,8 @@ pub fn run(ctx: &mut Ctx) {
         let lang = LANGS[i % LANGS.len()];
         let c = if i % 6 == 0 {
             crate::with_lang!(lang, valid_case(&mut rng))
+        } else if i % 6 == 3 {
+            crate::with_lang!(lang, pair_case(&mut rng))
         } else {
             crate::with_lang!(lang, fuzz_case(&mut rng))
         };
@@ -403,7 +466,17 @@ fn replay_l<L: HLang>(kind: &str, text: &str) -> Case {
     finish::<L>(kind, text, vec![], true, "replay")
 }
 
+fn replay2_l<L: HLang>(k1: &str, t1: &str, k2: &str, t2: &str) -> Case {
+    finish2::<L>(k1, t1, k2, t2, vec![], "replay")
+}
+
 pub fn replay(body: &str) -> Case {
+    if let Some(b2) = body.strip_prefix("parse2 ") {
+        let parts: Vec<&str> = b2.split(';').collect();
+        let lang = LANGS.iter().copied().find(|l| crate::with_lang!(*l, sig_string()) == parts[0]).expect("unknown signature");
+        let (t1, t2) = (dec_cps(parts[2]), dec_cps(parts[4]));
+        return crate::with_lang!(lang, replay2_l(parts[1], &t1, parts[3], &t2));
+    }
     let parts: Vec<&str> = body.split(';').collect();
     let lang = LANGS.iter().copied().find(|l| crate::with_lang!(*l, sig_string()) == parts[0]).expect("unknown signature");
     let text = dec_cps(parts[2]);
